@@ -314,20 +314,45 @@ func glueEmbed(toks []string, probe string) ([]string, bool) {
 }
 
 func genC20glue(c *Ctx) {
-	r := c.R
-	sizes := []int{4, 5, 6}
+	glueFPA(c)
+	glueNoRule(c, "C20glue", 1)
+	glueFPAReal(c)
+	glueTaktician(c, "C20glue", 1)
+	glueFns(c)
+}
+
+// C07glue: the parts that concern the bot loop's thinker interface without an FPA rule (Friendly without rule,
+// Taktician): who is asked, on which position, under which clock - incl. calls for thinkers whose position is no
+// longer the newest / was undone.
+func genC07glue(c *Ctx) {
+	glueNoRule(c, "C07glue", 3)
+	glueTaktician(c, "C07glue", 2)
+}
+
+func glueSizes(c *Ctx) []int {
 	if c.Thorough() {
-		sizes = []int{4, 5, 6, 7, 8}
+		return []int{4, 5, 6, 7, 8}
 	}
+	return []int{4, 5, 6}
+}
+
+var glueCols = []tak.Color{tak.White, tak.Black, tak.NoColor}
+
+func glueFPA(c *Ctx) {
+	sizes := glueSizes(c)
 	// ---- A
 	perCell := c.Scale(6000, 200000) / (3 * 2 * len(sizes))
 	if perCell < 1 {
 		perCell = 1
 	}
 	for _, variant := range []string{"center", "doublestack", "cairn"} {
-		for _, col := range []tak.Color{tak.White, tak.Black} {
+		for _, col := range []tak.Color{tak.White, tak.Black, tak.NoColor} {
 			for _, size := range sizes {
-				for i := 0; i < perCell; i++ {
+				n := perCell
+				if col == tak.NoColor { // a Friendly with a rule that only observes: fewer
+					n = perCell/8 + 1
+				}
+				for i := 0; i < n; i++ {
 					toks := genFPALine(c, variant, col, size)
 					out := c.Emit("glue F " + variant + " " + glueCol(col) + " " + strconv.Itoa(size) + " - stub " + toks)
 					glueTags(c, "C20glue.A."+variant+"."+glueCol(col), out)
@@ -335,9 +360,13 @@ func genC20glue(c *Ctx) {
 			}
 		}
 	}
+}
+
+func glueNoRule(c *Ctx, tag string, div int) {
+	r := c.R
+	cols := glueCols
 	// ---- B: no FPA rule
-	cols := []tak.Color{tak.White, tak.Black, tak.NoColor}
-	nB := c.Scale(3000, 100000)
+	nB := c.Scale(3000, 100000) / div
 	for i := 0; i < nB; i++ {
 		size := 3 + r.Intn(4)
 		col := cols[r.Intn(3)]
@@ -373,9 +402,9 @@ func genC20glue(c *Ctx) {
 			lvl = strconv.Itoa(r.Intn(16))
 		}
 		out := c.Emit("glue F none " + glueCol(col) + " " + strconv.Itoa(size) + " " + lvl + " stub " + strings.Join(g.toks, " "))
-		glueTags(c, "C20glue.B.stub."+glueCol(col), out)
+		glueTags(c, tag+".B.stub."+glueCol(col), out)
 	}
-	nBai := c.Scale(500, 20000)
+	nBai := c.Scale(500, 20000) / div
 	for i := 0; i < nBai; i++ {
 		size := 3 + r.Intn(3)
 		if r.Chance(1, 10) {
@@ -409,13 +438,19 @@ func genC20glue(c *Ctx) {
 		probe := execLine(c.S, "glueprobe "+head+strings.Join(g.toks, " "))
 		toks, ok := glueEmbed(g.toks, probe)
 		if !ok {
-			c.Count("C20glue.B.ai.probe-failed")
+			c.Count(tag + ".B.ai.probe-failed")
 			toks = g.toks
 		}
 		out := c.Emit("glue " + head + strings.Join(toks, " "))
-		glueTags(c, "C20glue.B.ai.level"+strconv.Itoa(lvl), out)
+		glueTags(c, tag+".B.ai.level"+strconv.Itoa(lvl), out)
 	}
-	// FPA games with the real searcher: the opening script, then searched moves under the rule (black wins ties)
+}
+
+// FPA games with the real searcher: the opening script, then searched moves under the rule (black wins ties)
+func glueFPAReal(c *Ctx) {
+	r := c.R
+	cols := glueCols
+	sizes := glueSizes(c)
 	nAai := c.Scale(200, 8000)
 	for i := 0; i < nAai; i++ {
 		variant := []string{"center", "doublestack", "cairn"}[r.Intn(3)]
@@ -466,9 +501,14 @@ func genC20glue(c *Ctx) {
 		out := c.Emit("glue " + head + strings.Join(toks, " "))
 		glueTags(c, "C20glue.A.ai."+variant, out)
 	}
+}
+
+func glueTaktician(c *Ctx, tag string, div int) {
+	r := c.R
+	cols := glueCols
 	// ---- C: Taktician
 	limits := []int64{0, 1, 1000000, 1000000000, 60000000000, -5, 1 << 62}
-	nC := c.Scale(2500, 80000)
+	nC := c.Scale(2500, 80000) / div
 	for i := 0; i < nC; i++ {
 		size := 3 + r.Intn(4)
 		col := cols[r.Intn(3)]
@@ -500,8 +540,11 @@ func genC20glue(c *Ctx) {
 		}
 		opp := strconv.Itoa(r.Intn(2))
 		out := c.Emit("glue T " + strconv.FormatInt(limits[r.Intn(len(limits))], 10) + " " + glueCol(col) + " " + strconv.Itoa(size) + " " + opp + " " + mode + " " + strings.Join(g.toks, " "))
-		glueTags(c, "C20glue.C."+mode+"."+glueCol(col)+".opp"+opp, out)
+		glueTags(c, tag+".C."+mode+"."+glueCol(col)+".opp"+opp, out)
 	}
+}
+
+func glueFns(c *Ctx) {
 	// ---- D
 	if c.Shard == 0 {
 		for l := -3; l <= 120; l++ {
@@ -536,4 +579,5 @@ func genC20glue(c *Ctx) {
 
 func init() {
 	genTable["C20glue"] = genC20glue
+	genTable["C07glue"] = genC07glue
 }
